@@ -106,7 +106,7 @@ func discharge(fvs []*FuncVC, cfg RunConfig) {
 				res, err := solve(q, cfg.TimeoutS, cfg.All, !usesZ3Only(q))
 				if res.Verdict == VUnknown && !j.o.Probe {
 					// one retry with a larger budget
-					res, err = solve(q, cfg.TimeoutS*6, cfg.All, !usesZ3Only(q))
+					res, err = solve(q, cfg.TimeoutS*3, cfg.All, !usesZ3Only(q))
 				}
 				j.o.Res = res
 				switch {
